@@ -152,6 +152,7 @@ pub open spec fn rcf_penalty(q: SendRec) -> int {
         // explicit assumption: the reward actor's ThisEpochReward query does not call back into this miner
         rt_no_reentry(REWARD_ACTOR_ADDR, ext::reward::THIS_EPOCH_REWARD_METHOD),
     ensures
+        /*C11*/ r.is_ok() ==> final(rt).validated@.is_some(),
         r.is_ok() ==> final(rt).tx_log@.len() == 1 && final(rt).sends@.len() >= 2,
         // sends: [query reward actor] [pay reporter] [burn?] [notify power?]
         r.is_ok() ==> final(rt).sends@[0].to == REWARD_ACTOR_ADDR && final(rt).sends@[0].value == 0,
